@@ -6,6 +6,8 @@ import (
 	"math/big"
 	"sort"
 
+	sdk "github.com/cosmos/cosmos-sdk/types"
+
 	st "github.com/irismod/service/types"
 )
 
@@ -70,6 +72,21 @@ func (oracleC06) Step(x *OCtx, t *Trans) []Violation {
 	var out []Violation
 	kind := t.Act.Kind
 	add := func(clause, disc, detail string) { out = append(out, viol("C06", clause, kind, disc, detail)) }
+	// the terms a batch is decided by (providers, fee cap, timeout, threshold) change only by an update of the context
+	for _, id := range t.Pre.CtxIDs {
+		pc, qc := t.Pre.Ctxs[id], t.Post.Ctxs[id]
+		if qc == nil || ((kind == "updctx" || kind == "mupdate") && t.Act.Ctx == id && t.Res.OK()) || (kind == "restart" && t.Res.OK()) {
+			continue
+		}
+		same := len(pc.Providers) == len(qc.Providers) && pc.ServiceFeeCap.IsEqual(qc.ServiceFeeCap) && pc.Timeout == qc.Timeout && pc.ResponseThreshold == qc.ResponseThreshold
+		for i := 0; same && i < len(pc.Providers); i++ {
+			same = bytes.Equal(pc.Providers[i], qc.Providers[i])
+		}
+		if !same {
+			add("context-terms-change-only-by-update", x.Sc.ctxName(id), fmt.Sprintf("providers / fee cap / timeout / threshold of context %s changed in a %s step: %v cap %s timeout %d threshold %d -> %v cap %s timeout %d threshold %d",
+				x.Sc.ctxName(id), kind, namesOf(pc.Providers), pc.ServiceFeeCap, pc.Timeout, pc.ResponseThreshold, namesOf(qc.Providers), qc.ServiceFeeCap, qc.Timeout, qc.ResponseThreshold))
+		}
+	}
 	// requests may only be created at end of block (or by a module-service call)
 	if kind != "E" {
 		for _, id := range t.Post.ReqIDs {
@@ -289,6 +306,14 @@ func (oracleC07) Step(x *OCtx, t *Trans) []Violation {
 			}
 			out = append(out, viol("C07", "consumer-pays-exactly-the-fees", kind, p.Disc, p.Detail))
 		}
+	}
+	return out
+}
+
+func namesOf(ps []sdk.AccAddress) []string {
+	var out []string
+	for _, p := range ps {
+		out = append(out, nameOf(p))
 	}
 	return out
 }
